@@ -58,9 +58,21 @@ def run_job(job):
         # two calls on one writer object; for every other job the later half is written first (back-fill)
         h = len(ks) // 2
         halves = [ks[:h], ks[h:]] if (j0 + w) % 2 == 0 or h == 0 else [ks[h:], ks[:h]]
-        for part_ks in halves:
-            if part_ks:
-                wri.write(part_ks, {"v": np.array(part_ks, dtype=np.uint64)})
+        poller = None
+        for hi_, part_ks in enumerate(halves):
+            if not part_ks:
+                continue
+            if hi_ == 1:
+                # long-lived reader polling for samples that do not exist yet
+                poller = drf.DigitalMetadataReader(mdir)
+                for k in part_ks[::7]:
+                    if [int(x) for x in poller.read(k, k)]:
+                        bad({"class": "placement", "side": "reader_before_write"}, "read(%d,%d) returned a sample before it was written" % (k, k), k=k)
+            wri.write(part_ks, {"v": np.array(part_ks, dtype=np.uint64)})
+            if hi_ == 1 and poller is not None:
+                for k in part_ks[::7]:
+                    if [int(x) for x in poller.read(k, k)] != [k]:
+                        bad({"class": "placement", "side": "polling_reader"}, "a reader that polled read(%d,%d) before the write does not see the sample afterwards" % (k, k), k=k)
         part["transitions"] += len(ks)
         # on disk: which file holds which group
         where = {}
